@@ -1,1 +1,132 @@
+(* C18 — property theorems only.  Each is closed by [exact <lemma>] (examples by computation) and
+   followed by Print Assumptions.
+
+   Vocabulary (definitions in Model.v / Proofs.v):
+     world        units' port lists [ports w SIn u] (= unit.ins) / [ports w SOut u] (= unit.outs), the
+                  back-pointers [ptr w SIn x] (= x._sink) / [ptr w SOut x] (= x._source) of every stream
+                  [S_ n] and placeholder [M_ n], fixed sizes, counters;
+     step w o     the operation [o] of network.py run on [w] (world left behind, exception raised);
+                  [step] is the source with pending_fixes/C18_1_pop_undock.diff applied, [step_found] the
+                  source as found;
+     wfb w o      o only mentions units and streams that exist in w;
+     preb w o     the property's precondition for o in w (Model.v, "preconditions of the property");
+     Inv w        the connection invariant; [C18_invariant_meaning] spells it out. *)
+From Coq Require Import ZArith.
 From V Require Import C18.Model C18.Proofs.
+Close Scope Q_scope.
+Open Scope nat_scope.
+
+(* what [Inv] says: a stream is among a unit's inlets exactly when that unit is its sink, among its
+   outlets exactly when it is its source; no object sits in two ports (of one list or of two units);
+   fixed-size lists have their size; placeholders in a unit's list point back at it and are empty *)
+Theorem C18_invariant_meaning : forall w, Inv w ->
+  (forall u s, In (S_ s) (ports w SIn u) <-> ptr w SIn (S_ s) = Some u) /\
+  (forall u s, In (S_ s) (ports w SOut u) <-> ptr w SOut (S_ s) = Some u) /\
+  (forall sd u, NoDup (ports w sd u)) /\
+  (forall sd u v x, In x (ports w sd u) -> In x (ports w sd v) -> u = v) /\
+  (forall sd u, pfixed w sd u = true -> length (ports w sd u) = psize w sd u) /\
+  (forall sd u m, In (M_ m) (ports w sd u) -> ptr w sd (M_ m) = Some u /\ is_real (M_ m) = false).
+Proof. exact Inv_meaning. Qed.
+Print Assumptions C18_invariant_meaning.
+
+(* the full statement: every modelled operation, used within its precondition, preserves the invariant *)
+Definition C18_step_statement : Prop := forall w o,
+  Inv w -> wfb w o = true -> preb w o = true -> Inv (fst (step w o)).
+
+(* proved for every operation except: list.empty(), unit.replace_with(None) (which calls empty()),
+   and unit construction with inlets/outlets other than None (creation with all ports missing IS
+   covered).  Those three are modelled and compared with the implementation, not proved.
+   [provenb o] is true for: item assignment / pipes (OSet), slice assignment (OSetSlice), insert, append,
+   extend, replace, pop, remove, clear (variable size), disconnect_sink/source, disconnect, u1-u2,
+   unit.disconnect(join_ends), unit.insert, take_place_of, replace_with(other), Connection.reconnect,
+   Unit(ins=None, outs=None). *)
+Theorem C18_step_partial : forall w o,
+  Inv w -> wfb w o = true -> preb w o = true -> provenb o = true -> Inv (fst (step w o)).
+Proof. exact step_Inv'. Qed.
+Print Assumptions C18_step_partial.
+
+(* lifted to every history, by induction; [within w ops]: each operation is well-formed, within its
+   precondition and among the proved ones at the moment it is executed *)
+Theorem C18_history : forall ops w, Inv w -> within w ops -> Inv (run w ops).
+Proof. exact history_Inv. Qed.
+Print Assumptions C18_history.
+
+(* ... in particular from scratch: no units yet, k streams; units are created by the history *)
+Theorem C18_history_from_scratch : forall k ops, within (empty_world k) ops -> Inv (run (empty_world k) ops).
+Proof. intros k ops. apply history_Inv. apply Inv_empty. Qed.
+Print Assumptions C18_history_from_scratch.
+
+(* a vacated port holds a new placeholder (remove; pop on a fixed-size list and
+   disconnect_sink/source go through remove) and nothing else in that list moves *)
+Theorem C18_vacated_port : forall sd w u x k, index_of x (ports w sd u) = Some k ->
+  ports (fst (remove w sd u (RObj x))) sd u = upd (ports w sd u) k (M_ (fresh w)).
+Proof. exact remove_vacates. Qed.
+Print Assumptions C18_vacated_port.
+
+(* ---------------------------------------------------------------- examples *)
+Ltac within_tac := vm_compute; repeat split; reflexivity.
+
+(* non-vacuity: a history through most operations is within the hypotheses of C18_history *)
+Definition demo : list op :=
+  [OSet SOut 0 0%Z (AObj (S_ 0)); OSet SIn 1 0%Z (AObj (S_ 0)); OAppend SIn 1 (AObj (S_ 1));
+   OSetSlice SIn 2 None None [AObj (S_ 2); ANone]; OSet SIn 2 1%Z (AObj (S_ 1)); OPipeUU 1 2;
+   OInsert SOut 2 0%Z (AObj (S_ 3)); OExtend SOut 2 [AObj (S_ 4)]; OPop SOut 2 0%Z; OPop SIn 2 0%Z;
+   OReplace SIn 1 (AObj (S_ 0)) (AAt SOut 0 0); ORemove SIn 1 (AAt SIn 1 0); ODisc SOut (AObj (S_ 0));
+   OUnitDisconnect 2 true; OTakePlaceOf 1 2; OReconnect (Some 0) 0%Z (AObj (S_ 2)) 1%Z (Some 1);
+   OUnitInsert 0 (AObj (S_ 2)); ODiscBoth (AObj (S_ 2)); OClear SOut 2].
+Example C18_nonvacuous : within (empty_world 5) (setup3 ++ demo) /\ Inv (run U3 demo).
+Proof. assert (H : within (empty_world 5) (setup3 ++ demo)) by within_tac. split; [exact H | now apply Inv_after]. Qed.
+
+(* DESIGN.md section 5 item 13: with the source as found, pop on a variable-size list breaks the
+   invariant (the stream keeps its sink).  The repaired branch is the one [step] models. *)
+Theorem C18_pop_as_found_refuted : exists w o,
+  Inv w /\ wfb w o = true /\ preb w o = true /\ ~ Inv (fst (step_found w o)) /\ Inv (fst (step w o)).
+Proof.
+  exists (run U3 [OAppend SIn 1 (AObj (S_ 0))]), (OPop SIn 1 2%Z).
+  assert (HI : Inv (run U3 [OAppend SIn 1 (AObj (S_ 0))])) by (apply Inv_after; within_tac).
+  split; [exact HI|]. split; [reflexivity|]. split; [reflexivity|]. split.
+  - apply not_Inv. vm_compute. reflexivity.
+  - apply step_Inv'; auto.
+Qed.
+Print Assumptions C18_pop_as_found_refuted.
+
+(* each precondition is needed: dropping it admits an operation that breaks the invariant *)
+Definition needed (pre : list op) (o : op) : Prop :=
+  let w := run U3 pre in Inv w /\ wfb w o = true /\ preb w o = false /\ ~ Inv (fst (step w o)).
+Ltac needed_tac :=
+  unfold needed; cbv zeta; split; [apply Inv_after; within_tac|];
+  split; [reflexivity|]; split; [reflexivity|]; apply not_Inv; vm_compute; reflexivity.
+
+(* item assignment of a stream that already sits at another index of the same list *)
+Example C18_set_precondition_needed :
+  needed [OSet SIn 1 0%Z (AObj (S_ 0))] (OSet SIn 1 1%Z (AObj (S_ 0))).
+Proof. needed_tac. Qed.
+(* append of a stream that is docked at another unit on that side *)
+Example C18_append_precondition_needed :
+  needed [OSet SIn 0 0%Z (AObj (S_ 0))] (OAppend SIn 1 (AObj (S_ 0))).
+Proof. needed_tac. Qed.
+Example C18_extend_precondition_needed :
+  needed [OSet SIn 0 0%Z (AObj (S_ 0))] (OExtend SIn 1 [AObj (S_ 0)]).
+Proof. needed_tac. Qed.
+(* a slice that supplies more streams than a fixed-size list holds: the list silently grows *)
+Example C18_slice_size_precondition_needed :
+  needed [] (OSetSlice SIn 0 None None [AObj (S_ 0); AObj (S_ 1)]).
+Proof. needed_tac. Qed.
+(* a slice with the same stream twice / with a stream that stays in the rest of the list *)
+Example C18_slice_distinct_precondition_needed :
+  needed [] (OSetSlice SIn 1 None None [AObj (S_ 0); AObj (S_ 0)]).
+Proof. needed_tac. Qed.
+Example C18_slice_disjoint_precondition_needed :
+  needed [OSet SIn 1 0%Z (AObj (S_ 0))] (OSetSlice SIn 1 (Some 1%Z) None [AObj (S_ 0)]).
+Proof. needed_tac. Qed.
+
+(* reported separately (not among the property's operations): clear() on a fixed-size list
+   re-creates the placeholders without undocking the streams it drops *)
+Example C18_clear_fixed_breaks_invariant :
+  needed [OSet SIn 0 0%Z (AObj (S_ 0))] (OClear SIn 0).
+Proof. needed_tac. Qed.
+(* reported separately: unit.insert(stream) on a unit whose outlets have variable size appends the
+   stream to its outlets and then undocks it through source.outs.replace: outside "single default ports" *)
+Example C18_unit_insert_variable_outlets_breaks_invariant :
+  needed [OSet SOut 0 0%Z (AObj (S_ 0)); OSet SIn 1 0%Z (AObj (S_ 0))] (OUnitInsert 2 (AObj (S_ 0))).
+Proof. needed_tac. Qed.
